@@ -40,9 +40,20 @@ func (r *rewriter) stmt(s ast.Stmt) ast.Stmt {
 		}
 		body := &ast.BlockStmt{List: []ast.Stmt{&ast.ExprStmt{X: c}}}
 		return &ast.ExprStmt{X: call(r.vs("Go"), &ast.FuncLit{Type: &ast.FuncType{Params: &ast.FieldList{}}, Body: body})}
+	case *ast.LabeledStmt:
+		if rs, ok := x.Stmt.(*ast.RangeStmt); ok && r.pre122 && r.isChan(rs.X) {
+			r.errf(x.Pos(), "labeled range over a channel in a pre-go1.22 file is not supported")
+		}
 	case *ast.RangeStmt:
 		isCh := r.isChan(x.X)
+		var elem types.Type
+		if isCh {
+			elem = r.info.TypeOf(x.X).Underlying().(*types.Chan).Elem()
+		}
 		r.children(x)
+		if isCh && r.pre122 {
+			return r.rangePre122(x, elem)
+		}
 		if isCh {
 			x.X = sel(x.X, "Range")
 		}
@@ -166,4 +177,29 @@ func (r *rewriter) typeExpr(t types.Type, pos token.Pos) ast.Expr {
 	}
 	r.errf(pos, "cannot print type %s", fmt.Sprint(t))
 	return ast.NewIdent("any")
+}
+
+// rangePre122 rewrites `for v := range c { body }` for files below go1.22, where range-over-func
+// does not exist and v is ONE variable shared by all iterations; c is evaluated once, as Go does:
+//
+//	{ vschedCh := c; var v T; for { var vschedOk bool; v, vschedOk = vschedCh.Recv2(); if !vschedOk { break }; body } }
+func (r *rewriter) rangePre122(x *ast.RangeStmt, elem types.Type) ast.Stmt {
+	ch, ok := ast.NewIdent("vschedCh"), ast.NewIdent("vschedOk")
+	var pre []ast.Stmt
+	pre = append(pre, &ast.AssignStmt{Lhs: []ast.Expr{ch}, Tok: token.DEFINE, Rhs: []ast.Expr{x.X}})
+	var lhs ast.Expr = ast.NewIdent("_")
+	if x.Key != nil {
+		lhs = x.Key
+		if id, isID := x.Key.(*ast.Ident); isID && x.Tok == token.DEFINE && id.Name != "_" {
+			pre = append(pre, varDecl(id.Name, r.typeExpr(elem, x.Pos())))
+			lhs = ast.NewIdent(id.Name)
+		}
+	}
+	body := []ast.Stmt{
+		varDecl("vschedOk", ast.NewIdent("bool")),
+		&ast.AssignStmt{Lhs: []ast.Expr{lhs, ok}, Tok: token.ASSIGN, Rhs: []ast.Expr{call(sel(ast.NewIdent("vschedCh"), "Recv2"))}},
+		&ast.IfStmt{Cond: &ast.UnaryExpr{Op: token.NOT, X: ast.NewIdent("vschedOk")}, Body: &ast.BlockStmt{List: []ast.Stmt{&ast.BranchStmt{Tok: token.BREAK}}}},
+	}
+	body = append(body, x.Body.List...)
+	return &ast.BlockStmt{List: append(pre, &ast.ForStmt{Body: &ast.BlockStmt{List: body}})}
 }
